@@ -126,7 +126,7 @@ def user(g, lib):
     return {k: refval.canon(v) for k, v in g.items() if k not in lib and not k.startswith('__bareScript')}
 
 
-def real_run(model, init, limit, files, base, api, options=None):
+def real_run(model, init, limit, files, base, api, options=None, debug=False):
     bare_script, lib, rt_err = api
     from bare_script import url_file_relative
     import functools
@@ -139,6 +139,8 @@ def real_run(model, init, limit, files, base, api, options=None):
                     'urlFn': functools.partial(url_file_relative, base)})
     if limit is None:
         options.pop('maxStatements', None)
+    if debug:
+        options['debug'] = True
     start = len(options.sink)
     try:
         with core.alarm(30):
@@ -209,6 +211,8 @@ def check_program(text, files, base, init, acc, api, case):
         rnd = random.Random(len(text))
         limits = sorted(set([1, 2, 3, 150] + [rnd.randint(1, 150) for _ in range(30)]))
     unlimited = None
+    unlimited_dbg = None
+    dbg_mode = core.case_hash(text) % 4 == 0
     aborts = 0
     shared = WatchedOptions()
     for L in limits:
@@ -244,6 +248,20 @@ def check_program(text, files, base, init, acc, api, case):
         if inv:
             acc.violation('counter-invariant', f'L={L}: {inv}; writes={real["sink"][:60]}\n{text}', c)
             return
+        if dbg_mode:
+            # debug mode (reports of failing calls, lint of includes) only ADDS log lines: same outcome at every limit, and the
+            # limited debug run is a prefix of the unlimited debug run
+            rd = real_run(model, init, L, files, base, api, debug=True)
+            if rd is not None:
+                acc.count('debug_mode_runs')
+                if L == 0:
+                    unlimited_dbg = rd
+                if rd['r'] != real['r'] or rd['globals'] != real['globals'] or (rd['r'][0] == 'ok' and rd['count'] != real['count']):
+                    acc.violation('debug-mode-changes-run', f'L={L}: debug {rd["r"]!r:.200} count={rd["count"]} vs plain {real["r"]!r:.200} count={real["count"]}\n{text}', dict(c, debug=True))
+                    return
+                if unlimited_dbg is not None and L != 0 and rd['logs'] != unlimited_dbg['logs'][:len(rd['logs'])]:
+                    acc.violation('limited-run-not-a-prefix', f'debug mode, L={L}: {rd["logs"][-4:]} vs unlimited {unlimited_dbg["logs"][:len(rd["logs"])][-4:]}\n{text}', dict(c, debug=True))
+                    return
         if L == 0:
             unlimited = real
         elif unlimited is not None:
